@@ -984,6 +984,12 @@ fn main() {
     let quick = run.tier == Tier::Quick;
     let budget = Budget::new(Duration::from_secs(run.tier.pick(50, 1500)));
     let _ = std::fs::create_dir_all(scratch_root());
+    // development aid: VH_C13_PARTS=i,ii,iii selects parts (default all; a partial run is reported as a cap)
+    let parts = std::env::var("VH_C13_PARTS").unwrap_or_else(|_| "i,ii,iii".into());
+    let part_on = |p: &str| parts.split(',').any(|x| x == p);
+    if parts != "i,ii,iii" {
+        run.cap_hit(format!("only parts {parts} were run (VH_C13_PARTS)"));
+    }
 
     let mut states = 0u64;
     let mut transitions = 0u64;
@@ -1004,7 +1010,7 @@ fn main() {
     let dflt = IPDiversityConfig::default;
     jobs.push(Job::new("default/v6/direct", dflt(), Entry::Direct, k6(7, if quick { &two } else { &five }), &[], 24));
     jobs.push(Job::new("default/v6/unified", dflt(), Entry::Unified, k6(7, if quick { &two } else { &three }), &[], 24));
-    jobs.push(Job::new("default/v4", dflt(), Entry::Unified, if quick { k4(6, &two) } else { k4(6, &[PLAIN, HOST, HOST_ASN, VPN_ASN]) }, &sizes_all, run.tier.pick(5, 6)));
+    jobs.push(Job::new("default/v4", dflt(), Entry::Unified, if quick { k4(6, &two) } else { k4(6, &[PLAIN, HOST, HOST_ASN, VPN_ASN]) }, &sizes_all, run.tier.pick(4, 6)));
     // mixed: the ASN counter is shared between the families
     let mixed = vec![Kind::k6(0, ASN_ONLY), Kind::k6(4, HOST_ASN), Kind::k4(0, ASN_ONLY), Kind::k4(3, HOST_ASN), Kind::k4(3, ASN_ONLY)];
     jobs.push(Job::new("default-asn3/mixed", IPDiversityConfig { max_nodes_per_asn: 3, ..dflt() }, Entry::Unified, mixed.clone(), &[0, 1000], 12));
@@ -1036,6 +1042,9 @@ fn main() {
 
     let t_i = std::time::Instant::now();
     let mut steps_i = 0u64;
+    if !part_on("i") {
+        jobs.clear();
+    }
     for job in &jobs {
         if budget.exceeded() {
             all_exhaustive = false;
@@ -1094,6 +1103,9 @@ fn main() {
         ops.push(EOp::Join(6));
         ejobs.push(EJob { fmt, nodes: enodes.clone(), ops, depth: 16 });
     }
+    if !part_on("ii") {
+        ejobs.clear();
+    }
     for job in &ejobs {
         if budget.exceeded() {
             all_exhaustive = false;
@@ -1120,7 +1132,7 @@ fn main() {
         }
         job_reports.push(json!({"part": "ii", "format": job.fmt.name(), "ops": job.ops.len(), "depth_bound": job.depth, "completed_depth": st.completed_depth, "fixpoint": st.fixpoint, "states": st.states, "transitions": st.transitions}));
     }
-    let scripts: Vec<(bool, Fmt)> = vec![(false, Fmt::Sock), (true, Fmt::Sock), (false, Fmt::IpOnly), (true, Fmt::IpOnly)];
+    let scripts: Vec<(bool, Fmt)> = if part_on("ii") { vec![(false, Fmt::Sock), (true, Fmt::Sock), (false, Fmt::IpOnly), (true, Fmt::IpOnly)] } else { vec![] };
     let script_steps = AtomicU64::new(0);
     par_for(scripts.len(), |i| {
         let (v6fam, fmt) = scripts[i];
@@ -1138,11 +1150,16 @@ fn main() {
     let mut both = b4.clone();
     both.extend(b6.iter().copied());
     let wide64 = IPDiversityConfig { max_nodes_per_64: 100, max_nodes_per_48: 100, max_nodes_per_32: 100, ..IPDiversityConfig::default() };
-    let bjobs = vec![
-        BJob { name: "default/all-addresses", cfg: IPDiversityConfig::default(), addrs: both.clone(), depth: 12 },
+    // one BootstrapManager costs ~25 ms CPU (ant-quic cache open), so the quick alphabets are smaller
+    let some: Vec<IpAddr> = if quick { vec![b4[0], b4[1], b4[2], b4[3], b6[0], b6[1], b6[4]] } else { both.clone() };
+    let mut bjobs = vec![
+        BJob { name: "default", cfg: IPDiversityConfig::default(), addrs: some.clone(), depth: 12 },
         BJob { name: "wide-ipv6-caps/ipv4-addresses", cfg: wide64, addrs: b4.clone(), depth: run.tier.pick(4, 7) },
-        BJob { name: "small(2,3,3)/all-addresses", cfg: small_cfg(2, 3, 3, 2), addrs: both.clone(), depth: run.tier.pick(4, 6) },
+        BJob { name: "small(2,3,3)", cfg: small_cfg(2, 3, 3, 2), addrs: some.clone(), depth: run.tier.pick(3, 6) },
     ];
+    if !part_on("iii") {
+        bjobs.clear();
+    }
     for job in &bjobs {
         if budget.exceeded() {
             all_exhaustive = false;
